@@ -289,4 +289,51 @@ class ChunkTwin(Case):
                             yield dict(blocks=bl, strand=strand, f0=f0, cs=cs, ce=ce)
 
 
-CASES = [CdsModel(), ChunkTwin()]
+class GffChunkRows(Case):
+    """CDS rows of a chunk-relative GFF3 export: coordinates are the chunk-relative CDS blocks and the phase column is
+    the frame-derived phase OF THE EXPORTED BLOCKS (the reading frame continues where the chunk cuts the 5' end)."""
+    props = ("C11", "C07")
+    proved = False
+    name = "bounded: chunk-relative to_gff CDS rows (coordinates and phase)"
+    func = CDS + ".to_gff"
+    scope = "all CDS with <= 3 exons (lengths 2,3,5, gap 1) on a 26 bp genome, both strands, start offsets 0/1/2, " \
+            "chunk windows on a grid (every window in the thorough tier)"
+    call = "[(r.start, r.end, r.phase.value, r.strand.name) for r in chunked.to_gff(chromosome_relative_coordinates=False)]"
+    ensures = {
+        "coordinates-are-chunk-relative-blocks": lambda i, r: [(a, b) for a, b, _p, _s in r] == [
+            (s - i.cs + 1, e - i.cs) for s, e in i.kept],
+        "phase-is-frame-derived": lambda i, r: [p for _a, _b, p, _s in r] == i.phases,
+        "strand": lambda i, r: all(s == i.strand for *_x, s in r),
+    }
+
+    def inputs(self, S):
+        from inscripta.biocantor.io.parser import seq_chunk_to_parent
+        blocks = [tuple(b) for b in S.const("blocks")]
+        strand, f0 = S.const("strand"), S.const("f0")
+        cs, ce = S.const("cs"), S.const("ce")
+        fr = consistent_frames(blocks, strand, f0)
+        chunk = seq_chunk_to_parent(GENOME[cs:ce], "chr1", cs, ce)
+        chunked = mk_cds(S, blocks, strand, fr, chunk)
+        chunked.sequence_name = "chr1"
+        kept = [(max(s, cs), min(e, ce)) for s, e in blocks if max(s, cs) < min(e, ce)]
+        S.assume(bool(kept))
+        positions = cds_positions(blocks, strand)
+        inside = [p for p, _k in positions if cs <= p < ce]
+        d0 = [p for p, _k in positions].index(inside[0])
+        f_first = (f0 - d0) % 3
+        fr5 = consistent_frames(kept, strand, f_first)
+        plus_order = fr5 if strand == "PLUS" else fr5[::-1]
+        return NS(chunked=chunked, kept=kept, cs=cs, strand=strand, phases=[(-f) % 3 for f in plus_order])
+
+    def domain(self, tier):
+        step = 3 if tier == "quick" else 1
+        for bl in exon_layouts(20, 3, lens=(2, 3, 5), gaps=(1,), first=(2,)):
+            hi = bl[-1][1] + 2
+            for strand in ("PLUS", "MINUS"):
+                for f0 in (0, 1, 2):
+                    for cs in range(0, hi, step):
+                        for ce in range(cs + 1, hi + 1, 2 if tier == "quick" else 1):
+                            yield dict(blocks=bl, strand=strand, f0=f0, cs=cs, ce=ce)
+
+
+CASES = [CdsModel(), ChunkTwin(), GffChunkRows()]
